@@ -484,6 +484,7 @@ theorem step_Inv2 (st : State) (op : Op) (hi : st.src.Inv) (h : st.src.Inv2) : (
   | importA ids =>
     simp only [step]; split <;> exact h
   | dump => exact h
+  | bigcase n imp => simp only [step]; split <;> exact h
 
 /-- **the side condition of the series clause holds along every run** -/
 theorem seriesAlong_all (ops : List Op) (st : State) (hi : st.src.Inv) (h : st.src.Inv2) :
